@@ -14,7 +14,7 @@ import hashlib
 ROOT = os.path.abspath(os.path.join(os.path.dirname(__file__), ".."))
 sys.path.insert(0, os.path.join(ROOT, "engine"))
 sys.path.insert(0, os.path.join(ROOT, "spec"))
-REPO = "/repo"
+REPO = os.environ.get("VERIF_DEV_REPO", "/repo")     # the override is for developing harnesses against a scratch worktree only; registered commands never set it
 
 
 class Inconclusive(Exception):
